@@ -72,6 +72,36 @@ static BUILTINS: LazyLock<HashSet<&'static str>> = LazyLock::new(|| {
     .collect::<HashSet<&str>>()
 });
 
+/// Verification hook (only with `--cfg pest_parser_pest_verif`): counts the steps of the recursive
+/// analyses below (left recursion, non-failing, non-progressing) and optionally bounds them.
+#[cfg(pest_parser_pest_verif)]
+pub mod verif {
+    use std::sync::atomic::{AtomicUsize, Ordering};
+
+    static STEPS: AtomicUsize = AtomicUsize::new(0);
+    static LIMIT: AtomicUsize = AtomicUsize::new(usize::MAX);
+
+    /// Message of the panic raised when the step limit is exceeded.
+    pub const LIMIT_MESSAGE: &str = "verif: validator step limit exceeded";
+
+    /// Resets the step counter and sets the limit (`usize::MAX` for none).
+    pub fn reset(limit: usize) {
+        STEPS.store(0, Ordering::Relaxed);
+        LIMIT.store(limit, Ordering::Relaxed);
+    }
+
+    /// Reads the step counter.
+    pub fn steps() -> usize {
+        STEPS.load(Ordering::Relaxed)
+    }
+
+    pub(super) fn step() {
+        if STEPS.fetch_add(1, Ordering::Relaxed) >= LIMIT.load(Ordering::Relaxed) {
+            panic!("{}", LIMIT_MESSAGE);
+        }
+    }
+}
+
 /// It checks the parsed grammar for common mistakes:
 /// - using Pest keywords
 /// - duplicate rules
@@ -333,6 +363,8 @@ fn is_non_progressing<'i>(
     rules: &HashMap<String, &ParserNode<'i>>,
     trace: &mut Vec<String>,
 ) -> bool {
+    #[cfg(pest_parser_pest_verif)]
+    verif::step();
     match *expr {
         ParserExpr::Str(ref string) | ParserExpr::Insens(ref string) => string.is_empty(),
         ParserExpr::Ident(ref ident) => {
@@ -429,6 +461,8 @@ fn is_non_failing<'i>(
     rules: &HashMap<String, &ParserNode<'i>>,
     trace: &mut Vec<String>,
 ) -> bool {
+    #[cfg(pest_parser_pest_verif)]
+    verif::step();
     match *expr {
         ParserExpr::Str(ref string) | ParserExpr::Insens(ref string) => string.is_empty(),
         ParserExpr::Ident(ref ident) => {
@@ -637,6 +671,8 @@ fn left_recursion<'a, 'i: 'a>(rules: HashMap<String, &'a ParserNode<'i>>) -> Vec
         rules: &'a HashMap<String, &ParserNode<'i>>,
         trace: &mut Vec<String>,
     ) -> Option<Error<Rule>> {
+        #[cfg(pest_parser_pest_verif)]
+        verif::step();
         match node.expr.clone() {
             ParserExpr::Ident(other) => {
                 if trace[0] == other {
